@@ -214,7 +214,7 @@ fn hot_spans(h: &History) -> Vec<(usize, usize)> {
 /// size, and equal to the sequential build — for valid files and for their
 /// fault-corrupted variants alike.
 pub fn c08_schedules(ctx: &Ctx, out: &mut RunOut) -> Result<(), Violation> {
-    for k in ["mode-t-loads", "mode-t-loads-with-allocation-preemption", "allocation-point-preemptions", "mode-t-loads-stalled-and-discarded", "files-with-all-orders-enumerated", "orders-enumerated-exhaustively", "baton-choice-at-contended-lock", "big-object-stream-docs", "image-fault-corrupted"] {
+    for k in ["files-with-shared-container-length", "mode-t-loads", "mode-t-loads-with-allocation-preemption", "allocation-point-preemptions", "mode-t-loads-stalled-and-discarded", "files-with-all-orders-enumerated", "orders-enumerated-exhaustively", "baton-choice-at-contended-lock", "big-object-stream-docs", "image-fault-corrupted"] {
         ctx.count_n(k, 0); // registered so that a probe that never fires shows up as zero in the evidence
     }
     let mut h = gen_history(ctx, 3, true, false, false);
@@ -241,12 +241,19 @@ pub fn c08_schedules(ctx: &Ctx, out: &mut RunOut) -> Result<(), Violation> {
     }
     let containers: Vec<u32> = h.written.layout.objstm_containers.iter().flatten().cloned().collect();
     let n_sched = if h.heavy { 4 } else if thorough() { 24 } else { 8 };
+    // files in which an object-stream container shares its indirect Length with another stream: whatever
+    // a loader keeps per Length object is touched by two closures; such files get extra Mode T loads,
+    // all with allocation-point preemption
+    let n_extra = if h.written.layout.container_length_shared > 0 && !h.heavy { if thorough() { 32 } else { 16 } } else { 0 };
+    if n_extra > 0 {
+        ctx.count("files-with-shared-container-length");
+    }
     let mut distinct_orders = std::collections::BTreeSet::new();
     for (img, kind) in &images {
         ctx.event("c08-image", img.len() as u64, simcore::fnv(img));
         let reference = guarded("load_mem(seq)", || seq::load_outcome(img))?;
         let mut first_sim: Option<Result<u64, String>> = None;
-        for i in 0..n_sched {
+        for i in 0..n_sched + n_extra {
             ctx.set_sched(match i {
                 0 => SchedPolicy::InOrder,
                 1 => SchedPolicy::Reverse,
@@ -256,13 +263,13 @@ pub fn c08_schedules(ctx: &Ctx, out: &mut RunOut) -> Result<(), Violation> {
             ctx.set_num_threads([1usize, 2, 3, 4, 8, 16][ctx.draw(S, 6, "pool-size") as usize]);
             // Mode T for a share of the schedules: real threads under the baton scheduler, with the
             // reader's mutexes as scheduling points (hook H1)
-            let mode_t = i >= 3 && ctx.chance(S, 1, if thorough() { 2 } else { 4 }, "mode-t");
+            let mode_t = i >= n_sched || (i >= 3 && ctx.chance(S, 1, if thorough() { 2 } else { 4 }, "mode-t"));
             if mode_t {
                 ctx.set_mode_t(Some([1usize, 2, 3, 4, 8, 16][ctx.draw(S, 6, "mode-t-workers") as usize]));
                 ctx.count("mode-t-loads");
                 // half of them also preempt workers at allocation points inside the closures
                 // (VERIF_NO_ALLOC_PREEMPT: diagnosis knob used for the sensitivity proof, DESIGN.md 9.1e)
-                let pre = ctx.chance(S, 1, 2, "alloc-preempt") && std::env::var_os("VERIF_NO_ALLOC_PREEMPT").is_none();
+                let pre = (i >= n_sched || ctx.chance(S, 1, 2, "alloc-preempt")) && std::env::var_os("VERIF_NO_ALLOC_PREEMPT").is_none();
                 ctx.set_alloc_preempt(pre);
                 if pre {
                     ctx.count("mode-t-loads-with-allocation-preemption");
